@@ -1,0 +1,127 @@
+//go:build verif
+
+package aac
+
+// Property C18: the audio configuration codecs are exact over their whole domain.
+//
+// Both directions of each codec are stated against the SAME parse functions of the bit syntax (ISO/IEC 14496-3 1.6.2.1
+// AudioSpecificConfig restricted to AOT 2/5/29; ISO/IEC 13818-7 6.2 adts_fixed_header/adts_variable_header):
+// the encoder ensures "the bytes handed to the writer parse to the fields of the value", the decoder ensures "the
+// returned value is the parse of the bytes consumed". f16/f32 extract an n-bit big-endian field that starts o bits into
+// byte p of the abstract stream d.
+
+//@ spec f16(d [1099511627776]byte, p int, o int, n int) uint = ((uint(d[p])<<8 | uint(d[p+1])) >> uint(16-o-n)) & mask(n)
+//@ spec f32(d [1099511627776]byte, p int, o int, n int) uint = ((uint(d[p])<<24 | uint(d[p+1])<<16 | uint(d[p+2])<<8 | uint(d[p+3])) >> uint(32-o-n)) & mask(n)
+
+// AudioSpecificConfig at byte p of d; x1 (x2) is 3 when the sampling (extension) frequency is explicit (index 15), else 0.
+//@ spec ascAOT(d [1099511627776]byte, p int) uint = f16(d, p, 0, 5)
+//@ spec ascFI(d [1099511627776]byte, p int) uint = f16(d, p, 5, 4)
+//@ spec ascF24(d [1099511627776]byte, p int) uint = f32(d, p+1, 1, 24)
+//@ spec ascCh(d [1099511627776]byte, p int, x1 int) uint = f16(d, p+1+x1, 1, 4)
+//@ spec ascGAlc(d [1099511627776]byte, p int, x1 int) uint = f16(d, p+1+x1, 5, 3)
+//@ spec ascEFI(d [1099511627776]byte, p int, x1 int) uint = f16(d, p+1+x1, 5, 4)
+//@ spec ascEF24(d [1099511627776]byte, p int, x1 int) uint = f32(d, p+2+x1, 1, 24)
+//@ spec ascAOT2(d [1099511627776]byte, p int, x1 int, x2 int) uint = f16(d, p+2+x1+x2, 1, 5)
+//@ spec ascGAhe(d [1099511627776]byte, p int, x1 int, x2 int) uint = f16(d, p+2+x1+x2, 6, 3)
+//@ spec ascX1(d [1099511627776]byte, p int) int = ite(ascFI(d, p) == 15, 3, 0)
+//@ spec ascX2(d [1099511627776]byte, p int) int = ite(ascEFI(d, p, ascX1(d, p)) == 15, 3, 0)
+
+// The abstract writer has accepted a sane number of bytes so far (the model of io.Writer.Write keeps wlen within 0..2^56).
+//@ pred wr0(w io.Writer) = 0 <= ghost(w).wlen && ghost(w).wlen <= 1<<48
+
+// ascEnc: the L bytes at p of d are an AudioSpecificConfig with the given field values in the layout selected by x1, x2
+// (every field that the layout contains is pinned down; GASpecificConfig and the padding bits are zero).
+//@ pred ascEnc(d [1099511627776]byte, p int, L int, aot uint, f uint, ch uint, ef uint, x1 int, x2 int) = ascAOT(d, p) == aot && (x1 == 3 ==> ascFI(d, p) == 15 && ascF24(d, p) == f & 0xffffff) && ascCh(d, p, x1) == ch & 15 && (aot == 2 ==> x2 == 0 && L == 2 + x1 && ascGAlc(d, p, x1) == 0) && (aot != 2 ==> L == 4 + x1 + x2 && (x2 == 3 ==> ascEFI(d, p, x1) == 15 && ascEF24(d, p, x1) == ef & 0xffffff) && ascAOT2(d, p, x1, x2) == 2 && ascGAhe(d, p, x1, x2) == 0 && d[p+L-1] & 0x7f == 0)
+//@ spec ascEncA(d [1099511627776]byte, p int, L int, a *AudioSpecificConfig, x1 int, x2 int) bool = ascEnc(d, p, L, uint(a.ObjectType), uint(a.SamplingFrequency), uint(a.ChannelConfiguration), uint(a.ExtensionFrequency), x1, x2)
+
+// Encoder: whenever Encode reports success, the bytes appended to the abstract writer are an AudioSpecificConfig of a's fields in
+// one of the layouts of the syntax. Which layout (index or 24-bit escape, per frequency) is decided by the Go map
+// ReverseFrequencies; the verifier does not model maps (every lookup yields an unconstrained value), so the clauses say: the
+// layout is one of the admissible ones for the number of bytes written, an escaped frequency is written as index 15 followed by
+// the 24 low bits of the value, and all other fields sit where that layout puts them. NOT covered: that a table frequency gets
+// its table index (and never 15) -- see TestC18FrequencyTablesInverse / TestC18ASCRoundTripDomain for that part.
+// Values outside the field widths are truncated, as the "& 15" / "& 0xffffff" say (domain: channel configuration < 16,
+// 0 <= frequency < 2^24).
+//@ func (*AudioSpecificConfig).Encode
+//@   uses C18
+//@   ensures[C18] result == nil ==> a.ObjectType == 2 || a.ObjectType == 5 || a.ObjectType == 29
+//@   ensures[C18] result == nil && old(wr0(w)) && a.ObjectType == 2 ==> ascEncA(ghost(w).wdata, old(ghost(w).wlen), ghost(w).wlen - old(ghost(w).wlen), a, 0, 0) || ascEncA(ghost(w).wdata, old(ghost(w).wlen), ghost(w).wlen - old(ghost(w).wlen), a, 3, 0)
+//@   ensures[C18] result == nil && old(wr0(w)) && a.ObjectType != 2 ==> ghost(w).wlen == old(ghost(w).wlen) + 4 || ghost(w).wlen == old(ghost(w).wlen) + 7 || ghost(w).wlen == old(ghost(w).wlen) + 10
+//@   ensures[C18] result == nil && old(wr0(w)) && a.ObjectType != 2 && ghost(w).wlen == old(ghost(w).wlen) + 4 ==> ascEncA(ghost(w).wdata, old(ghost(w).wlen), 4, a, 0, 0)
+// (the 10-byte layout is stated field group by field group: as one conjunction it exceeds the solver budget on a loaded machine)
+//@   ensures[C18] result == nil && old(wr0(w)) && a.ObjectType != 2 && ghost(w).wlen == old(ghost(w).wlen) + 10 ==> ascAOT(ghost(w).wdata, old(ghost(w).wlen)) == uint(a.ObjectType) && ascFI(ghost(w).wdata, old(ghost(w).wlen)) == 15 && ascF24(ghost(w).wdata, old(ghost(w).wlen)) == uint(a.SamplingFrequency) & 0xffffff
+//@   ensures[C18] result == nil && old(wr0(w)) && a.ObjectType != 2 && ghost(w).wlen == old(ghost(w).wlen) + 10 ==> ascCh(ghost(w).wdata, old(ghost(w).wlen), 3) == uint(a.ChannelConfiguration) & 15 && ascEFI(ghost(w).wdata, old(ghost(w).wlen), 3) == 15 && ascEF24(ghost(w).wdata, old(ghost(w).wlen), 3) == uint(a.ExtensionFrequency) & 0xffffff
+//@   ensures[C18] result == nil && old(wr0(w)) && a.ObjectType != 2 && ghost(w).wlen == old(ghost(w).wlen) + 10 ==> ascAOT2(ghost(w).wdata, old(ghost(w).wlen), 3, 3) == 2 && ascGAhe(ghost(w).wdata, old(ghost(w).wlen), 3, 3) == 0 && ghost(w).wdata[old(ghost(w).wlen)+9] & 0x7f == 0
+//@   ensures[C18] result == nil && old(wr0(w)) && a.ObjectType != 2 && ghost(w).wlen == old(ghost(w).wlen) + 7 ==> ascEncA(ghost(w).wdata, old(ghost(w).wlen), 7, a, 3, 0) || ascEncA(ghost(w).wdata, old(ghost(w).wlen), 7, a, 0, 3)
+
+// getFrequency is only entered with three unread bits left of the byte before rpos (after audioObjectType, and after
+// channelConfiguration): frq0. Its result is the 4-bit index at bit 5 of that byte and, for index 15, the following 24 bits.
+//@ pred frq0(br *bits.Reader) = br.err == nil && rInv(br) && br.n == 3 && ghost(br.rd).rpos >= 1 && br.value == uint(ghost(br.rd).rdata[ghost(br.rd).rpos-1]) & 7
+
+//@ func getFrequency
+//@   uses C13
+//@   ensures br.rd == old(br.rd) && ghost(br.rd).rlen == old(ghost(br.rd).rlen) && ghost(br.rd).rdata == old(ghost(br.rd).rdata)
+//@   ensures ok ==> br.err == nil
+//@   ensures[C18] old(frq0(br)) && ok ==> rInv(br) && br.n == 7 && ghost(br.rd).rpos == old(ghost(br.rd).rpos) + 1 + ite(f16(ghost(br.rd).rdata, old(ghost(br.rd).rpos)-1, 5, 4) == 15, 3, 0) && br.value == uint(ghost(br.rd).rdata[ghost(br.rd).rpos-1]) & 0x7f
+//@   ensures[C18] old(frq0(br)) && ok && f16(ghost(br.rd).rdata, old(ghost(br.rd).rpos)-1, 5, 4) == 15 ==> frequency == int(f32(ghost(br.rd).rdata, old(ghost(br.rd).rpos), 1, 24))
+//@   ensures[C18] old(frq0(br)) && f16(ghost(br.rd).rdata, old(ghost(br.rd).rpos)-1, 5, 4) == 15 && old(ghost(br.rd).rpos) + 4 <= ghost(br.rd).rlen ==> ok
+
+// The decoder is specified on every input (reader positioned at 0): whenever it reports success, the returned configuration
+// is the parse of the stream. For a sampling-frequency index other than 15 the frequency value comes from the Go map
+// FrequencyTable, which the verifier does not model: nothing is claimed about that value (nor that such input is accepted).
+//@ func DecodeAudioSpecificConfig
+//@   uses C13
+//@   ensures[C18] result1 == nil ==> result0 != nil
+//@   ensures[C18] old(ghost(r).rpos) == 0 && result1 == nil ==> uint(result0.ObjectType) == ascAOT(ghost(r).rdata, 0) && (result0.ObjectType == 2 || result0.ObjectType == 5 || result0.ObjectType == 29) && result0.SBRPresentFlag == (result0.ObjectType != 2) && result0.PSPresentFlag == (result0.ObjectType == 29)
+//@   ensures[C18] old(ghost(r).rpos) == 0 && result1 == nil && ascFI(ghost(r).rdata, 0) == 15 ==> result0.SamplingFrequency == int(ascF24(ghost(r).rdata, 0))
+//@   ensures[C18] old(ghost(r).rpos) == 0 && result1 == nil ==> uint(result0.ChannelConfiguration) == ascCh(ghost(r).rdata, 0, ascX1(ghost(r).rdata, 0))
+//@   ensures[C18] old(ghost(r).rpos) == 0 && result1 == nil && result0.ObjectType == 2 ==> result0.ExtensionFrequency == 0
+//@   ensures[C18] old(ghost(r).rpos) == 0 && result1 == nil && result0.ObjectType != 2 ==> ascAOT2(ghost(r).rdata, 0, ascX1(ghost(r).rdata, 0), ascX2(ghost(r).rdata, 0)) == 2
+//@   ensures[C18] old(ghost(r).rpos) == 0 && result1 == nil && result0.ObjectType != 2 && ascEFI(ghost(r).rdata, 0, ascX1(ghost(r).rdata, 0)) == 15 ==> result0.ExtensionFrequency == int(ascEF24(ghost(r).rdata, 0, ascX1(ghost(r).rdata, 0)))
+//@   ensures[C18] old(ghost(r).rpos) == 0 && ascAOT(ghost(r).rdata, 0) == 2 && ascFI(ghost(r).rdata, 0) == 15 && ghost(r).rlen >= 5 ==> result1 == nil
+//@   ensures[C18] old(ghost(r).rpos) == 0 && (ascAOT(ghost(r).rdata, 0) == 5 || ascAOT(ghost(r).rdata, 0) == 29) && ascFI(ghost(r).rdata, 0) == 15 && ascEFI(ghost(r).rdata, 0, 3) == 15 && ascAOT2(ghost(r).rdata, 0, 3, 3) == 2 && ghost(r).rlen >= 9 ==> result1 == nil
+
+// ---------------------------------------------------------------- ADTS header (ISO/IEC 13818-7 6.2), sync word at byte p of d
+//@ pred adtsSync(d [1099511627776]byte, p int) = d[p] == 0xff && d[p+1]>>4 == 0xf && (d[p+1]>>1)&3 == 0
+//@ spec adtsID(d [1099511627776]byte, p int) byte = (d[p+1]>>3) & 1
+//@ spec adtsPA(d [1099511627776]byte, p int) byte = d[p+1] & 1
+//@ spec adtsProfile(d [1099511627776]byte, p int) uint = f16(d, p+2, 0, 2)
+//@ spec adtsSFI(d [1099511627776]byte, p int) uint = f16(d, p+2, 2, 4)
+// (adtsPriv and adtsCopy are the always-zero fields of the encoder; the decoder ignores them)
+//@ spec adtsPriv(d [1099511627776]byte, p int) uint = f16(d, p+2, 6, 1)
+//@ spec adtsCh(d [1099511627776]byte, p int) uint = f16(d, p+2, 7, 3)
+//@ spec adtsCopy(d [1099511627776]byte, p int) uint = f16(d, p+3, 2, 4)
+//@ spec adtsFrameLen(d [1099511627776]byte, p int) uint = f32(d, p+3, 6, 13)
+//@ spec adtsFullness(d [1099511627776]byte, p int) uint = f16(d, p+5, 3, 11)
+//@ spec adtsBlocks(d [1099511627776]byte, p int) uint = f16(d, p+6, 6, 2)
+
+// (ADTSHeader).Encode builds the header in a local bytes.Buffer{} through a bits.Writer and returns buf.Bytes(). The verifier has
+// no model of the bytes.Buffer literal / (*bytes.Buffer).Bytes (the result is an unconstrained slice) and the locals of this
+// single-block function cannot be named in an ensures clause, so no contract on Encode can speak about the bytes produced:
+// the encoder half of the ADTS pair is NOT covered by contracts (see the exhaustive test aac/c18_domain_test.go instead).
+
+// The ADTS decoder is specified on every input (reader positioned at 0): whenever it reports success, offset is the position
+// of the FIRST sync pattern (0xfff followed by layer 00 two bits later) in the stream and the header is the parse of the
+// 7 (9 with CRC) bytes found there; exactly offset+HeaderLength bytes have been consumed.
+//@ func DecodeADTSHeader
+//@   uses C13
+//@   loop 1 invariant br != nil && br.rd == r && (br.err == nil ==> rInv0(br)) && ghost(r).rdata == old(ghost(r).rdata) && ghost(r).rlen == old(ghost(r).rlen) && !syncFound && 0 <= i
+//@   loop 1 invariant old(ghost(r).rpos) == 0 && br.err == nil ==> rInv(br) && br.n == 0 && ghost(r).rpos == offset && i <= offset - ite(sync2 == 0xff, 1, 0) && offset <= 2*i
+//@   loop 1 invariant old(ghost(r).rpos) == 0 && br.err == nil && sync2 == 0xff ==> ghost(r).rdata[offset-1] == 0xff
+//@   loop 1 invariant old(ghost(r).rpos) == 0 && br.err == nil ==> forall k int :: 0 <= k && k < offset - ite(sync2 == 0xff, 1, 0) ==> !adtsSync(ghost(r).rdata, k)
+//@   ensures[C18] err == nil ==> header != nil
+//@   ensures[C18] old(ghost(r).rpos) == 0 && err == nil ==> 0 <= offset && offset <= 374 && adtsSync(ghost(r).rdata, offset)
+//@   ensures[C18] old(ghost(r).rpos) == 0 && err == nil ==> forall k int :: 0 <= k && k < offset ==> !adtsSync(ghost(r).rdata, k)
+//@   ensures[C18] old(ghost(r).rpos) == 0 && err == nil ==> header.ID == adtsID(ghost(r).rdata, offset) && header.HeaderLength == ite(adtsPA(ghost(r).rdata, offset) == 1, byte(7), byte(9)) && ghost(r).rpos == offset + int(header.HeaderLength)
+//@   ensures[C18] old(ghost(r).rpos) == 0 && err == nil ==> uint(header.ObjectType) == adtsProfile(ghost(r).rdata, offset) + 1 && uint(header.SamplingFrequencyIndex) == adtsSFI(ghost(r).rdata, offset) && uint(header.ChannelConfig) == adtsCh(ghost(r).rdata, offset)
+//@   ensures[C18] old(ghost(r).rpos) == 0 && err == nil ==> header.PayloadLength == uint16(adtsFrameLen(ghost(r).rdata, offset)) - uint16(header.HeaderLength) && uint(header.BufferFullness) == adtsFullness(ghost(r).rdata, offset) && adtsBlocks(ghost(r).rdata, offset) == 0
+// Completeness: if the first sync pattern of the stream lies within the first 188 bytes (0..187 bytes of junk before it), the
+// header announces one raw data block and the header bytes (9 if a CRC follows) are present, decoding succeeds (and then, by
+// the clauses above, offset is the number of junk bytes).
+//@   loop 1 invariant old(ghost(r).rpos) == 0 && br.err != nil ==> forall k int :: 0 <= k && k <= ghost(r).rlen - 2 ==> !adtsSync(ghost(r).rdata, k)
+//@   ensures[C18] old(ghost(r).rpos) == 0 ==> forall j int :: 0 <= j && j <= 187 && adtsSync(ghost(r).rdata, j) && (forall k int :: 0 <= k && k < j ==> !adtsSync(ghost(r).rdata, k)) && adtsBlocks(ghost(r).rdata, j) == 0 && j + 9 <= ghost(r).rlen ==> err == nil
+
+// NewADTSHeader: the fields of the header built (the frequency index comes from the Go map ReverseFrequencies, which the verifier
+// does not model: nothing is claimed about it). Note that channelConfig is NOT restricted to the 3 bits the ADTS field has.
+//@ func NewADTSHeader
+//@   ensures[C18] result1 == nil ==> result0 != nil && objectType == 2 && result0.ObjectType == 2 && result0.ID == 0 && result0.ChannelConfig == channelConfig && result0.HeaderLength == 7 && result0.PayloadLength == plLen && result0.BufferFullness == 0x7ff
